@@ -147,7 +147,7 @@ template<int DD> void history_t(Case& c) {
 		int const steps = int(g.in(3, MAXSTEPS)); int done = 0; bool had_assign_over_state = false;
 		describe("T=" + std::to_string(H_T) + " D=" + std::to_string(D) + " TR=" + std::to_string(H_TR) + ":");
 		for(int s = 0; s < steps; ++s) {
-			std::size_t a = std::size_t(g.below(4)), b = std::size_t(g.below(4)); int o = int(g.below(28)); auto e = rnd_ext(g);
+			std::size_t a = std::size_t(g.below(4)), b = std::size_t(g.below(4)); int o = int(g.below(29)); auto e = rnd_ext(g);
 			if(!pool[a].a && g.chance(3, 4)) o = int(g.below(2));  // empty slot: mostly construct something first, so that histories are not dominated by inapplicable steps
 			if(!pool[b].a && pool[a].a && a != b && g.chance(1, 2)) std::swap(a, b);
 			Slot& A = pool[a]; Slot& B = pool[b]; std::string opk; bool c06 = false; std::ostringstream d;
@@ -158,7 +158,11 @@ template<int DD> void history_t(Case& c) {
 				if(TRIVIAL && A.a->num_elements() > 0) { Elem const* p = A.a->data_elements(); for(L k = 0; k < A.a->num_elements(); ++k) if(!is_poison(p[k])) { V("C08:ctor(ext):wrote-trivial-elements", "sizing constructor wrote to elements of a trivially default-constructible type"); break; } count("poison_checks"); }
 				break; }
 			case 1: { opk = "ctor(ext,value)"; d << opk << "(" << a << "," << estr() << ")"; cur_op = d.str(); op(opk); softcfg().opk = opk; auto al = pick_alloc(g); long id = next_id++; A.a.reset(); bool wa = g.chance(1, 2);
-				auto bs = rnd_base(g); if(wa) A.a.emplace(make_extensions<D>(bs, e), mk(id), al); else A.a.emplace(make_extensions<D>(bs, e), mk(id)); A.m = filled(e, id); A.m.base = bs; A.m.base_known = (A.m.n() > 0); A.aid = wa ? al.id : 0; A.agen = 0; break; }
+				auto bs = rnd_base(g); bool fillctor = false;
+#if H_D == 1 && H_T != 2  // the 1-D fill constructor takes one index extension (for std::string elements that call is taken for string(count, char) and does not compile on the pinned tree)
+				if(g.chance(1, 4)) { fillctor = true; count("ctor(index_extension,value)"); multi::index_extension const ie(bs[0], bs[0] + e[0]); if(wa) A.a.emplace(ie, mk(id), al); else A.a.emplace(ie, mk(id)); }
+#endif
+				if(!fillctor) { if(wa) A.a.emplace(make_extensions<D>(bs, e), mk(id), al); else A.a.emplace(make_extensions<D>(bs, e), mk(id)); } A.m = filled(e, id); A.m.base = bs; A.m.base_known = (A.m.n() > 0); A.aid = wa ? al.id : 0; A.agen = 0; break; }
 			case 2: { if(!B.a || a == b) break; opk = "copy-ctor"; d << opk << "(" << a << "<-" << b << ")"; cur_op = d.str(); op(opk); softcfg().opk = opk; A.a.reset(); A.a.emplace(*B.a); A.m = B.m; A.aid = B.aid; A.agen = B.agen + 1; break; }
 			case 3: { if(!B.a || a == b) break; opk = "copy-ctor(alloc)"; d << opk << "(" << a << "<-" << b << ")"; cur_op = d.str(); op(opk); softcfg().opk = opk; auto al = pick_alloc(g); A.a.reset(); A.a.emplace(*B.a, al); A.m = B.m; A.aid = al.id; A.agen = 0; break; }
 			case 4: { if(!B.a || a == b) break; opk = "move-ctor"; d << opk << "(" << a << "<-" << b << ")"; cur_op = d.str(); op(opk); softcfg().opk = opk; A.a.reset(); long c0 = registry().special();
@@ -185,7 +189,8 @@ template<int DD> void history_t(Case& c) {
 				break; }
 			case 12: { if(!B.a || a == b) break; Model vm; MV mv; int k = int(g.below(6)); if(!view_of(k, B.m, vm, mv)) break; opk = "ctor(view)"; d << opk << "(" << a << "<-" << b << " view" << k << ")"; cur_op = d.str(); op(opk); softcfg().opk = opk; A.a.reset(); auto al = pick_alloc(g); bool wa = g.chance(1, 2);
 				{ bool done_const = false; if(g.chance(1, 3)) done_const = with_const_view(k, *B.a, [&](auto&& v) { if(wa) A.a.emplace(v, al); else A.a.emplace(v); });
-					if(!done_const) with_view(k, *B.a, [&](auto&& v) { if(wa) A.a.emplace(v, al); else A.a.emplace(v); }); }
+					if(!done_const) { bool const rvalue_view = g.chance(1, 3); if(rvalue_view) count("ctor(view):rvalue-view");  // a named view (copied from) or an expiring one (the constructors taking subarray&&): elements are copied either way, a view is reference-like
+						with_view(k, *B.a, [&](auto&& v) { if(rvalue_view) { if(wa) A.a.emplace(std::move(v), al); else A.a.emplace(std::move(v)); } else { if(wa) A.a.emplace(v, al); else A.a.emplace(v); } }); } }
 				A.m = vm; A.m.base_known = false; A.aid = wa ? al.id : 0; A.agen = 0; break; }
 			case 13: if constexpr(DD >= 1) { if(!A.a) break; opk = std::string("assign-from-other-element-type"); Model nm = fresh(e); if(nm.n() == 0) break; opk += (A.m.ext == e ? "(same-extents)" : (A.m.n() == nm.n() ? "(same-count)" : "(other-extents)")); d << opk << "(" << a << "," << estr() << ")"; cur_op = d.str(); op(opk); softcfg().opk = opk;
 				OArr O(make_extensions<D>(e)); { Other* p = O.data_elements(); for(L k2 = 0; k2 < nm.n(); ++k2) p[k2] = mko(nm.ids[std::size_t(k2)]); } *A.a = O; A.m = nm; had_assign_over_state = true; break; } break;
@@ -216,7 +221,11 @@ template<int DD> void history_t(Case& c) {
 			case 18: { if(!A.a || !B.a || a == b || D < 2 || B.m.n() == 0) break; c06 = true; opk = "assign(first,last)(rows)"; d << opk << "(" << a << "<-rows of " << b << ")"; cur_op = d.str(); op(opk); softcfg().opk = opk; if constexpr(DD >= 2) { A.a->assign(B.a->begin(), B.a->end()); } A.m = B.m; A.m.base_known = false; break; }
 			case 19: { if(!A.a || A.m.n() == 0) break; opk = "element-write"; L k = g.below(A.m.n()); long id = next_id++; d << opk << "(" << a << ",#" << k << ")"; cur_op = d.str(); op(opk); softcfg().opk = opk;
 				if constexpr(DD == 0) { *A.a->data_elements() = mk(id); } else { std::vector<L> ix; MV::root(A.m.ext).unlin(k, ix); { std::vector<L> fs; std::apply([&](auto const&... x) { (fs.push_back(L(x.first())), ...); }, A.a->extensions().base()); for(std::size_t q = 0; q < ix.size(); ++q) ix[q] += (A.m.base_known ? A.m.base[q] : fs[q]); } brk(*A.a, ix) = mk(id); } A.m.ids[std::size_t(k)] = id; break; }
-			case 20: { if(!B.a || a == b) break; opk = "decay(+)"; d << opk << "(" << a << "<-+" << b << ")"; cur_op = d.str(); op(opk); softcfg().opk = opk; A.a.reset(); { int const form = int(g.below(3)); if(form == 0) A.a.emplace(+*B.a); else if(form == 1) A.a.emplace(B.a->decay()); else {
+			case 20: { if(!B.a || a == b) break; opk = "decay(+)"; d << opk << "(" << a << "<-+" << b << ")"; cur_op = d.str(); op(opk); softcfg().opk = opk; A.a.reset(); { int form = int(g.below(4));
+#if !(H_T == 2 && H_D == 1)  // (+ of a const array<string,1> brace-initialises its result: the initializer_list constructor is tried and it does not compile on the pinned tree)
+				if(form == 3) { A.a.emplace(+std::as_const(*B.a)); count("decay(+const)"); }
+#endif
+				if(form == 3) form = 0; if(A.a) { (void)0; } else if(form == 0) { A.a.emplace(+*B.a); } else if(form == 1) A.a.emplace(B.a->decay()); else {
 #if !(H_T == 2 && H_D == 1)
 					A.a.emplace(+std::move(*B.a)); count("decay(+rvalue)");
 #else
@@ -242,6 +251,9 @@ template<int DD> void history_t(Case& c) {
 			case 27: { if(!A.a || !B.a || a == b || D < 3 || B.m.n() == 0 || B.m.unspec) break; c06 = true;  // (3) assign(first,last) / assignment from the rows of an array with the same row count and element count but other inner extents
 				{ std::vector<L> ne = B.m.ext; std::swap(ne[1], ne[std::size_t(D - 1)]); if(ne == B.m.ext) break; Model tm = fresh(ne); A.a.reset(); A.a.emplace(make_extensions<D>(ne), mk(0)); write_ids(*A.a, tm); A.m = tm; A.m.base.assign(std::size_t(D), 0); A.m.base_known = true; A.aid = 0; A.agen = 0; }
 				opk = "assign(first,last)(rows,same-count-other-inner-extents)"; d << opk << "(" << a << "<-rows of " << b << ")"; cur_op = d.str(); op(opk); softcfg().opk = opk; if constexpr(DD >= 3) { A.a->assign(B.a->begin(), B.a->end()); } A.m.ext = B.m.ext; A.m.ids = B.m.ids; A.m.base_known = false; break; }
+			case 25: if constexpr(DD >= 1) { Model nm = fresh(e); if(nm.n() == 0) break; opk = "ctor(array_ref)"; d << opk << "(" << a << "," << estr() << ")"; cur_op = d.str(); op(opk); softcfg().opk = opk;  // an owning array built from a non-owning reference over foreign storage (non-const and const reference objects)
+				std::vector<Elem> buf; for(long id : nm.ids) buf.push_back(mk(id)); multi::array_ref<Elem, D> R(make_extensions<D>(e), buf.data()); A.a.reset(); if(g.chance(1, 2)) A.a.emplace(R); else A.a.emplace(std::as_const(R));
+				if(A.a->data_elements() == buf.data()) V("C04:ctor(array_ref):storage-shared", "an array constructed from an array_ref uses the referenced storage"); A.m = nm; A.m.base.assign(std::size_t(D), 0); A.m.base_known = true; A.aid = 0; A.agen = 0; } break;
 			case 24: { opk = "destroy"; d << opk << "(" << a << ")"; cur_op = d.str(); op(opk); softcfg().opk = opk; A.a.reset(); A.m = Model{}; break; }
 			default: if constexpr(DD >= 1) { if(!A.a) break; opk = "default-ctor+assign"; d << opk << "(" << a << ")"; cur_op = d.str(); op(opk); softcfg().opk = opk; Arr tmp; tmp = *A.a; std::string why; Model mm = A.m; if(!matches(tmp, mm, why)) V("C04:default-ctor+assign:array-differs-from-model", why); break; } break;
 			}
